@@ -102,6 +102,8 @@ class Built:
             o.add_dependencies(*[self.objs[i].__xpm__.dependency() for i in a["ids"]])
         elif k == "seal":
             o.__xpm__.seal(DirectoryContext(Path("/nonexistent/ctx")))
+        elif k == "copydeps":               # o takes over the task mark (and dependencies) of the output of task a["out"]
+            o.copy_dependencies(self.submit(a["out"], []))
         elif k == "ids":                    # the identifiers are requested (and cached when sealed)
             o.__xpm__.full_identifier
         elif k == "unseal":
